@@ -394,19 +394,24 @@ func (e *kvElection) becomeLeader(token string, rev uint64) {
 		)...,
 	)
 
+	// e.ctx and e.onPromote are guarded by e.mu: hand the goroutines the
+	// values read here instead of letting them re-read the fields unlocked.
+	ctx := e.ctx
+	onPromote := e.onPromote
+
 	e.wg.Add(1)
 	go func() {
 		defer e.wg.Done()
-		e.heartbeatLoop(e.ctx)
+		e.heartbeatLoop(ctx)
 	}()
 
 	e.wg.Add(1)
 	go func() {
 		defer e.wg.Done()
-		e.validationLoop(e.ctx)
+		e.validationLoop(ctx)
 	}()
 
-	if e.onPromote != nil {
+	if onPromote != nil {
 		log.Info("leader_promoted",
 			append(e.logWithContext(e.ctx),
 				zap.String("token", token),
@@ -419,15 +424,15 @@ func (e *kvElection) becomeLeader(token string, rev uint64) {
 				if r := recover(); r != nil {
 					log := e.getLogger()
 					log.Error("onpromote_callback_panic",
-						append(e.logWithContext(e.ctx),
+						append(e.logWithContext(ctx),
 							zap.Any("panic", r),
 						)...,
 					)
 				}
 			}()
-			promoteCtx, cancel := context.WithCancel(e.ctx)
+			promoteCtx, cancel := context.WithCancel(ctx)
 			defer cancel()
-			e.onPromote(promoteCtx, token)
+			onPromote(promoteCtx, token)
 		}()
 	}
 }
@@ -515,13 +520,13 @@ func (e *kvElection) becomeFollower() {
 		)...,
 	)
 
-	if e.ctx != nil && !e.watcherRunning.Load() {
+	if ctx := e.ctx; ctx != nil && !e.watcherRunning.Load() {
 		e.watcherRunning.Store(true)
 		e.wg.Add(1)
 		go func() {
 			defer e.watcherRunning.Store(false)
 			defer e.wg.Done()
-			e.watchLoop(e.ctx)
+			e.watchLoop(ctx)
 		}()
 	}
 }
